@@ -385,14 +385,15 @@ def model_guarded(model, lines, cpu=2, mem_mb=1500, nproc=None):
         return list(ex.map(one, lines))
 
 
-D4 = re.compile(r"^(OK|MORE|FAIL|RC\?) (\d+) (\S+) ck=(-?\d+) re=(\S+) live=(-?\d+)( ATEXIT)?$")
+D4 = re.compile(r"^(OK|MORE|FAIL|RC\?) (\d+) (\S+) ck=(-?\d+) re=(\S+) live=(-?\d+)(?: slack=(\S+))?( ATEXIT)?$")
 
 
 def parse_d4(o):
     m = D4.match(o)
     if not m:
         return None
-    return {"rc": m.group(1), "consumed": int(m.group(2)), "der": m.group(3), "ck": int(m.group(4)), "re": m.group(5), "live": int(m.group(6))}
+    return {"rc": m.group(1), "consumed": int(m.group(2)), "der": m.group(3), "ck": int(m.group(4)), "re": m.group(5), "live": int(m.group(6)),
+            "slack": m.group(7)}
 
 
 def stack_site(err):
@@ -409,7 +410,7 @@ def stack_site(err):
 # elements start a new one)
 
 class BNode:
-    __slots__ = ("tag", "cons", "form", "content", "kids", "tree", "end")
+    __slots__ = ("tag", "cons", "form", "content", "kids", "tree", "end", "hdr", "cons_raw")
 
 
 def parse_ber_any(b, pos, depth=0):
